@@ -17,7 +17,9 @@ EXPLANATION = (
     "solver/method table is a template directory, every cvode method it names has a `general.method == ..` branch, every example case suffix is in "
     "the table; R6 no lossy split of free text: a rate/ODE-modifier expression cut with split(sep) and then read by constant index keeps its tail "
     "(maxsplit, re-join, or an unpacking that raises); R7 each ODE-modifier entry gets fresh lists (no shared template object); R8 the render "
-    "command installs Species' global tables (replacement, elements, pseudo-elements) before it constructs any Species.")
+    "command installs Species' global tables (replacement, elements, pseudo-elements) before it constructs any Species; R9 every user setting "
+    "BaseConfiguration.content writes is the stored field whole: the field itself, or a comprehension/helper that copies every entry (keys as "
+    "strings) -- no filter drops entries on the way into the file.")
 ASSUMPTIONS = [
     "the general case of option values containing separator characters, quoting through cleo's string input, and equality of the rendered sources with the API path are not decided",
 ]
@@ -101,6 +103,88 @@ def check(ctx):
     _r4_r6_r7(ctx, pkg)
     _r5(ctx, pkg)
     _r8(ctx, pkg)
+    _r9(ctx, pkg)
+
+
+# ------------------------------------------------------------------ R9  the writer passes every table on whole
+
+def _whole(v, mod, depth=0):
+    """-> ('ok'|'filtered'|'unknown', detail) for the value assigned to a configuration path."""
+    if isinstance(v, ast.Attribute) and isinstance(v.value, ast.Name) and v.value.id == "self":
+        return "ok", "the stored field itself"
+    if isinstance(v, ast.Name):
+        return "ok", "the value passed in"
+    if isinstance(v, ast.Call) and isinstance(v.func, ast.Attribute) and v.func.attr == "copy" and not v.args:
+        return _whole(v.func.value, mod, depth)
+    if isinstance(v, ast.Call) and ast.unparse(v.func) in ("dict", "list") and len(v.args) == 1:
+        return _whole(v.args[0], mod, depth)
+    if isinstance(v, (ast.DictComp, ast.ListComp)):
+        if len(v.generators) != 1:
+            return "unknown", "nested comprehension"
+        g = v.generators[0]
+        if g.ifs:
+            return "filtered", f"entries are dropped by `if {ast.unparse(g.ifs[0])}`"
+        it = g.iter
+        if isinstance(it, ast.Call) and isinstance(it.func, ast.Attribute) and it.func.attr == "items" and not it.args:
+            it = it.func.value
+        st, _ = _whole(it, mod, depth)
+        if st != "ok":
+            return st, "comprehension source"
+        names = [n.id for n in ast.walk(g.target) if isinstance(n, ast.Name)]
+        if isinstance(v, ast.DictComp):
+            kk = ast.unparse(v.key)
+            if kk not in (names[0], f"str({names[0]})") or not (isinstance(v.value, ast.Name) and v.value.id == names[-1]):
+                return "unknown", f"entries are rewritten: {kk}: {ast.unparse(v.value)}"
+        elif not (isinstance(v.elt, ast.Name) and v.elt.id == names[0]):
+            return "unknown", f"elements are rewritten: {ast.unparse(v.elt)}"
+        return "ok", "every entry is copied (keys as strings)"
+    if isinstance(v, ast.Call) and isinstance(v.func, ast.Name) and len(v.args) == 1 and not v.keywords and depth < 2:
+        for n in mod.body:
+            if isinstance(n, ast.FunctionDef) and n.name == v.func.id and len(n.args.args) == 1:
+                rets = [x for x in ast.walk(n) if isinstance(x, ast.Return)]
+                if len(rets) == 1 and rets[0].value is not None:
+                    st, why = _whole(rets[0].value, mod, depth + 1)
+                    return st, f"{v.func.id}(): {why}"
+        return "unknown", f"helper {v.func.id}() not resolved"
+    return "unknown", ast.unparse(v)[:60]
+
+
+USER_PATHS = ("chemistry.", "ODEsolver.", "general.name", "general.description", "general.loads")
+
+
+def _r9(ctx, pkg):
+    mod = pkg.modules[CONF]
+    cfn = pkg.cls("BaseConfiguration").methods["content"]
+    n = 0
+    var = {"content": ""}
+
+    def path_of(e):
+        if isinstance(e, ast.Name) and e.id in var:
+            return var[e.id]
+        if isinstance(e, ast.Subscript) and isinstance(e.slice, ast.Constant) and isinstance(e.slice.value, str):
+            b = path_of(e.value)
+            if b is not None:
+                return f"{b}.{e.slice.value}" if b else e.slice.value
+        return None
+    for st in sorted([x for x in ast.walk(cfn) if isinstance(x, ast.Assign)], key=lambda x: x.lineno):
+        t = st.targets[0]
+        if isinstance(t, ast.Name):
+            p = path_of(st.value)
+            if p is not None:
+                var[t.id] = p
+            continue
+        p = path_of(t) if isinstance(t, ast.Subscript) else None
+        if p is None or not p.startswith(USER_PATHS) or p == "chemistry.symbol":
+            continue
+        n += 1
+        state, why = _whole(st.value, mod)
+        if state == "unknown":
+            ctx.unrec("R9", f"write {p}:whole", (CONF, st.lineno), f"cannot tell whether the whole value reaches the file: {why}")
+        else:
+            ctx.check(state == "ok", "R9", f"write {p}:whole", (CONF, st.lineno), why if state == "ok" else
+                      f"the table written to `{p}` is filtered ({why}): a setting the user made (a rate modifier 0.0 that switches a reaction off, an explicit 0.0 yield) never reaches "
+                      "naunet_config.toml, and `naunet render` regenerates different sources", expected="every entry of the stored table", found=ast.unparse(st.value)[:100])
+    ctx.floor("R9", "user settings written", n, 18)
 
 
 def _r1(ctx, pkg):
@@ -393,6 +477,10 @@ def _r8(ctx, pkg):
 
 
 MUTANTS = [
+    {"name": "writer-drops-falsy-modifiers", "file": CONF, "old": "            str(key): value for key, value in self._ratemodifier.items()\n", "new": "            str(key): value for key, value in self._ratemodifier.items() if value\n", "rules": ["R9"]},
+    {"name": "writer-compacts-yields-via-helper", "edits": [
+        {"file": CONF, "old": "class BaseConfiguration:\n", "new": "def _compact(table):\n    return {str(k): v for k, v in table.items() if v}\n\n\nclass BaseConfiguration:\n"},
+        {"file": CONF, "old": '        chem_species["photon_yield"] = self._photonyield\n', "new": '        chem_species["photon_yield"] = _compact(self._photonyield)\n'}], "rules": ["R9"]},
     {"name": "symbol-key-typo", "file": CONF, "old": '"surface": self._species_kwargs.get("surface_prefix", "#"),', "new": '"surface": self._species_kwargs.get("surf_prefix", "#"),', "rules": ["R2"]},
     {"name": "bulk-key-typo-again", "file": CONF, "old": 'self._species_kwargs.get("bulk_prefix", "@")', "new": 'self._species_kwargs.get("builk_prefix", "@")', "rules": ["R2"]},
     {"name": "keyword-renamed-at-call", "file": INIT, "old": "            pseudo_element=pseudo_element,\n", "new": "            pseudo_elements=pseudo_element,\n", "rules": ["R2"]},
